@@ -17,6 +17,10 @@ Oracle (property statement, nothing more)
           cancelled and does not strand the others.
   datagram: only the waiter clauses (resumed once the socket accepts datagrams again / not stranded by a cancelled sibling /
           done after close).
+  handed over => no failure (all three harnesses): a suspended, non-cancelled send whose bytes (datagram) were all accepted by
+          the socket before a GRACEFUL local aclose() completed (connection_lost(None) right after the flush; no reset, no
+          write/sendto error, no forced close) must return normally, it must not raise -- keys
+          C20/stream/send-failed-although-handed-over, C20/dgram-<flavour>/send-failed-although-handed-over.
   history (all three harnesses): senders may be abandoned while suspended (cancel event, or the application's own
           asyncio.timeout around a send, after which the same task issues its next send); after every sender has ended and
           the peer has read everything, one more send is issued if the connection is alive and was not closed locally: it
@@ -50,7 +54,9 @@ RULE = (
     "(asyncio.timeout 1/64..1 s around the send: the sender is abandoned while suspended and goes on with its next send) and pauses "
     "0..0.5 s between sends; liveness clauses evaluated after the last event (peer reads again unless the connection was lost); "
     "history: once every sender has ended (some abandoned while suspended, the peer having drained the buffer with nobody waiting) "
-    "one more send is issued on the still healthy, not locally closed transport and must complete like any other (keys .../later-send)"
+    "one more send is issued on the still healthy, not locally closed transport and must complete like any other (keys .../later-send); "
+    "a suspended send whose bytes were all accepted by the socket before a graceful local aclose() completed (no reset, no write error, "
+    "not cancelled) must return, not raise (keys .../send-failed-although-handed-over)"
 )
 COMPONENTS_REAL = [
     "easynetwork.lowlevel.api_async.backend._asyncio._flow_control.WriteFlowControl",
@@ -291,9 +297,23 @@ def _h_stream(world: World) -> None:
                         world.log("send_end", s.idx, "timeout")
                         world.probe("send_abandoned_by_timeout")
                         continue
-                except ConnectionError:
+                except ConnectionError as exc:
                     s.outcomes.append("connection-error")
                     world.log("send_end", s.idx, "connection-error")
+                    # ---- clause 1b: a suspended send whose bytes were ALL accepted by the socket is resumed (returns), it does
+                    #      not report a failure -- demanded only where nothing but a graceful local close ended the connection
+                    #      (connection_lost(None) after the flush): no reset, no write error, no forced close, sender not cancelled
+                    if pipe.total_written >= end and st["closing"] and not (st["forced"] or st["lost"] or st["rst"] or st["write_failed"] or s.cancelled_by_harness):
+                        world.probe("send_failed_although_handed_over")
+                        world.fail(
+                            Violation(
+                                "resumed-when-peer-reads",
+                                f"sender {s.idx}: {kind}({n} bytes) was suspended, another task closed the transport gracefully (aclose()), the peer read again and the socket accepted every byte of this "
+                                f"send ({pipe.total_written} >= end offset {end}); no reset, no write error, nobody cancelled it -- yet the send raised {type(exc).__name__}: {exc} instead of returning "
+                                f"(a caller trusting the outcome retransmits); {describe()}",
+                                key="C20/stream/send-failed-although-handed-over",
+                            )
+                        )
                     break
                 except asyncio.CancelledError:
                     s.outcomes.append("cancelled")
@@ -520,7 +540,7 @@ def _h_dgram(world: World, flavour: str) -> None:
     #  on the listener like everywhere else; world.avoid_known is not consulted)
     kinds = ("open", "room", "block", "cancel", "aclose", "aclose_cancel")
     events = _draw_events(world, nevents, kinds, nsenders)
-    st: dict[str, Any] = {"closing": False, "closer": None, "sock": None, "forced": False, "forcer": None}
+    st: dict[str, Any] = {"closing": False, "closer": None, "sock": None, "forced": False, "forcer": None, "issued": 0}
     # fault "sendto itself fails" (ECONNREFUSED / EPIPE / ECONNRESET for calls n .. n+k-1).  asyncio's datagram transport reports an
     # OSError of sendto through protocol.error_received() and stays open: the connection is NOT lost, so the property only
     # demands that nobody is stranded and that the other sends complete (nothing about the failed datagram itself).
@@ -557,6 +577,8 @@ def _h_dgram(world: World, flavour: str) -> None:
                 if st["closing"]:
                     break
                 s.in_send = True
+                st["issued"] += 1
+                end = st["issued"]  # datagrams leave the socket in issue order (asyncio's queue is FIFO; abandoned ones stay queued)
                 world.log("send_start", s.idx, sizes[0])
                 try:
                     if not await _send_with_timeout(world, s.timeouts[j], lambda: send(_data(sizes[0]))):
@@ -564,9 +586,22 @@ def _h_dgram(world: World, flavour: str) -> None:
                         world.log("send_end", s.idx, "timeout")
                         world.probe("send_abandoned_by_timeout")
                         continue
-                except ConnectionError:
+                except ConnectionError as exc:
                     s.outcomes.append("connection-error")
                     world.log("send_end", s.idx, "connection-error")
+                    # ---- same clause as stream 1b: the socket accepted this datagram (and all the earlier ones) before the
+                    #      graceful local close completed; no sendto error injected, no forced close, sender not cancelled
+                    sock_ = st["sock"]
+                    if sock_ is not None and len(sock_.sent_log) >= end and dfail is None and st["closing"] and not st["forced"] and not s.cancelled_by_harness:
+                        world.probe("send_failed_although_handed_over")
+                        world.fail(
+                            Violation(
+                                "resumed-when-writable",
+                                f"sender {s.idx}: the datagram ({sizes[0]} bytes, #{end} in issue order) was suspended, another task closed the transport gracefully (aclose()), the socket accepted it "
+                                f"({len(sock_.sent_log)} datagrams sent) -- yet the send raised {type(exc).__name__}: {exc} instead of returning; {describe()}",
+                                key=f"C20/dgram-{flavour}/send-failed-although-handed-over",
+                            )
+                        )
                     break
                 except asyncio.CancelledError:
                     s.outcomes.append("cancelled")
